@@ -117,13 +117,15 @@ def gen(ctx):
         # resolution: the exact recurrence presupposes interior support; interpolation ringing of bunches narrower than
         # ~2.5 cells reaches the border at the 1e-5 level within tens of steps (then the case stops being evaluated)
         n, zoom, half = rng.choice([(64, 0.5, 7.0), (64, 1.0, 7.0), (64, 2.0, 13.0), (48, 1.0, 6.5), (48, 2.0, 13.0),
-                                    (32, 1.0, 6.5), (64, 1.0, 8.0), (48, 1.0, 7.0)])
+                                    (32, 1.0, 6.5), (64, 1.0, 8.0), (48, 1.0, 7.0),
+                                    # odd sizes: the zero-energy bin is an integer row (the 4-point stencil switches sides there)
+                                    (65, 1.0, 7.0), (49, 1.0, 6.5), (33, 1.0, 6.5), (65, 2.0, 13.0)])
         it = rng.choice([3, 4])
         P = rng.choice([24, 32, 48, 64])
         e1 = rng.choice([0.01, 0.02, 1.0 / 64, 0.03] if q else [0.01, 0.02, 1.0 / 64, 0.03, 0.005])
         if e1 * (n - 1) ** 2 > 0.45 * (2 * half) ** 2:
             e1 = 0.02       # stay inside the explicit scheme's stable range e1 <= delta^2/2 (C04_fp3_stable_range): beyond it rounding noise grows by |1 + e1 - 4 e1/delta^2| per step
-        shape = rng.choice(["gauss", "gauss", "flat", "ring", "tilted"]) if n > 32 else rng.choice(["gauss", "tilted"])
+        shape = rng.choice(["gauss", "gauss", "flat", "ring", "tilted"]) if n > 33 else rng.choice(["gauss", "tilted"])
         if v == 3:
             steps = int((6 if q else 12) / e1)
         elif v == 1:
